@@ -61,24 +61,24 @@ package routine
 //@   records runningRoutine via r
 //@   records StateRoutineContainer via rc
 //@   ghost lastCh: ref
-//@   inv H1: this.lastCh != nil ==> xowner(this.lastCh) == this
-//@   inv H2: this.routine != nil ==> this.routine.r == this && this.routine.routine != nil && (this.routine.exitedCh == this.lastCh || (this.routine.exitedCh == nil && (this.lastCh == nil || closed(this.lastCh))))
-//@   inv R1: forall rr: *runningRoutine {rr.r} :: rr.r == this && rr.ctx != nil && !rr.exited ==> rr.exitedCh != nil && chof(rr.ctx) == rr.exitedCh && xowner(rr.exitedCh) == this
-//@   inv R2: forall rr: *runningRoutine {rr.r} :: rr.r == this && rr.ctx != nil && rr.exited ==> chof(rr.ctx) != nil && xdone(chof(rr.ctx))
-//@   inv C5: forall ch: ref {xowner(ch)} :: xowner(ch) == this && !(this.routine != nil && this.routine.ctx == ictx(ch)) ==> cancelled(ictx(ch))
-//@   inv C6: forall rr: *runningRoutine {rr.r} :: rr.r == this && rr.ctx != nil ==> (rr.ctxCancel != nil && cancelOf(rr.ctxCancel) == rr.ctx) || cancelled(rr.ctx)
-//@   inv C7: this.routine != nil && this.routine.ctx != nil && !cancelled(this.routine.ctx) ==> this.ctx != nil && ctxparent(this.routine.ctx) == this.ctx
-//@   inv C8: forall ch: ref {xowner(ch)} :: xowner(ch) == this ==> ictx(ch) != nil
+//@   inv H1[C04]: this.lastCh != nil ==> xowner(this.lastCh) == this
+//@   inv H2[C04]: this.routine != nil ==> this.routine.r == this && this.routine.routine != nil && (this.routine.exitedCh == this.lastCh || (this.routine.exitedCh == nil && (this.lastCh == nil || closed(this.lastCh))))
+//@   inv R1[C04]: forall rr: *runningRoutine {rr.r} :: rr.r == this && rr.ctx != nil && !rr.exited ==> rr.exitedCh != nil && chof(rr.ctx) == rr.exitedCh && xowner(rr.exitedCh) == this
+//@   inv R2[C04]: forall rr: *runningRoutine {rr.r} :: rr.r == this && rr.ctx != nil && rr.exited ==> chof(rr.ctx) != nil && xdone(chof(rr.ctx))
+//@   inv C5[C05]: forall ch: ref {xowner(ch)} :: xowner(ch) == this && !(this.routine != nil && this.routine.ctx == ictx(ch)) ==> cancelled(ictx(ch))
+//@   inv C6[C05]: forall rr: *runningRoutine {rr.r} :: rr.r == this && rr.ctx != nil ==> (rr.ctxCancel != nil && cancelOf(rr.ctxCancel) == rr.ctx) || cancelled(rr.ctx)
+//@   inv C7[C05]: this.routine != nil && this.routine.ctx != nil && !cancelled(this.routine.ctx) ==> this.ctx != nil && ctxparent(this.routine.ctx) == this.ctx
+//@   inv C8[C05]: forall ch: ref {xowner(ch)} :: xowner(ch) == this ==> ictx(ch) != nil
 //@   stable SC5: forall ch: ref {xowner(ch)} :: xowner(ch) == this && !(this.routine != nil && this.routine.ctx == ictx(ch)) ==> cancelled(ictx(ch))
 //@   stable SC8: forall ch: ref {xowner(ch)} :: xowner(ch) == this ==> ictx(ch) != nil
-//@   inv S0: scof(this) != nil ==> cast(scof(this), StateRoutineContainer).rc == this
-//@   inv S1: scof(this) != nil && this.routine != nil ==> rst(this.routine.routine) == cast(scof(this), StateRoutineContainer).s && cast(scof(this), StateRoutineContainer).s != zero()
-//@   inv S2: scof(this) != nil && this.routine == nil ==> cast(scof(this), StateRoutineContainer).stateRoutine == nil || cast(scof(this), StateRoutineContainer).s == zero()
-//@   inv W2: forall rr: *runningRoutine {rr.r} :: rr.r == this && rr.ctx != nil && !rr.exited ==> rr.err == nil && !rr.success
-//@   inv W3: forall rr: *runningRoutine {rr.r} :: rr.r == this && rr.deferRetry != nil ==> this.retryBo != nil && rr.exited && !rr.success
-//@   inv T1: this.retryBo != nil && this.routine != nil && this.ctx != nil && this.routine.exited && !this.routine.success && !bstop(this.routine) ==> this.routine.deferRetry != nil
+//@   inv S0[C05]: scof(this) != nil ==> cast(scof(this), StateRoutineContainer).rc == this
+//@   inv S1[C05]: scof(this) != nil && this.routine != nil ==> rst(this.routine.routine) == cast(scof(this), StateRoutineContainer).s && cast(scof(this), StateRoutineContainer).s != zero()
+//@   inv S2[C05]: scof(this) != nil && this.routine == nil ==> cast(scof(this), StateRoutineContainer).stateRoutine == nil || cast(scof(this), StateRoutineContainer).s == zero()
+//@   inv W2[C14]: forall rr: *runningRoutine {rr.r} :: rr.r == this && rr.ctx != nil && !rr.exited ==> rr.err == nil && !rr.success
+//@   inv W3[C14]: forall rr: *runningRoutine {rr.r} :: rr.r == this && rr.deferRetry != nil ==> this.retryBo != nil && rr.exited && !rr.success
+//@   inv T1[C14]: this.retryBo != nil && this.routine != nil && this.ctx != nil && this.routine.exited && !this.routine.success && !bstop(this.routine) ==> this.routine.deferRetry != nil
 //@   stable SB: this.routine != nil ==> !bstop(this.routine)
-//@   inv H3: this.routine == nil ==> this.prevExitedCh == this.lastCh || (this.prevExitedCh == nil && (this.lastCh == nil || closed(this.lastCh)))
+//@   inv H3[C04]: this.routine == nil ==> this.prevExitedCh == this.lastCh || (this.prevExitedCh == nil && (this.lastCh == nil || closed(this.lastCh)))
 //
 //@ gtrans TS: forall k: ref {scof(k)} :: old(allocated(k)) && old(scof(k)) == nil ==> scof(k) == nil
 //@ ginv E0: forall ch: ref {xowner(ch)} :: xowner(ch) != nil ==> ch != nil && allocated(ch) && madein(ch, "(*runningRoutine).start")
@@ -91,9 +91,8 @@ package routine
 //@   props C04
 //@   inline
 //
-//@ func (*runningRoutine).stop
+//@ closure (*runningRoutine).stop
 //@   props C04 C05
-//@   inline
 //@   opt holds = r.bcast.mtx
 //@   opt frame = skip
 //@   requires r != nil && r.r != nil
